@@ -100,6 +100,9 @@ pub struct Ctx {
     pub enum_idx: u64,
     pub sample: u64,
     pub sample_phase: u64,
+    /// after an escaped panic the enumeration is restarted and cases up to here are skipped
+    pub skip_upto: u64,
+    pub can_skip: bool,
 }
 
 impl Ctx {
@@ -128,6 +131,8 @@ impl Ctx {
             enum_idx: 0,
             sample,
             sample_phase: if sample > 1 { seed % sample } else { 0 },
+            skip_upto: 0,
+            can_skip: true,
         }
     }
 
@@ -155,6 +160,9 @@ impl Ctx {
     /// Register the start of a case; returns false if the case is filtered out (`--only`).
     pub fn begin_case(&mut self, desc: impl FnOnce() -> String) -> bool {
         self.case_idx += 1;
+        if self.case_idx <= self.skip_upto {
+            return false;
+        }
         if let Some(o) = self.args.only {
             if o != self.case_idx {
                 return false;
@@ -196,6 +204,44 @@ impl Ctx {
         let case = format!("{} --only {}", self.args.replay_prefix(), self.case_idx);
         self.viol_idx.insert(key, self.viol.len());
         self.viol.push(Violation { prop, sig, detail, case, count: 1 });
+    }
+
+    /// A panic escaped a case: from the crate (called by the harness' own observation or
+    /// state-building code, where no panic is ever documented) or from the harness tripping over
+    /// inconsistent answers of the crate.
+    pub fn record_escaped_panic(&mut self) {
+        let (msg, loc) = crate::tok::take_last_panic().unwrap_or_default();
+        crate::tok::fp_disarm();
+        crate::alloc::set_paint(None);
+        crate::alloc::scope_pause();
+        self.attribute = None;
+        let case = self.cur_case.clone();
+        let opname = case
+            .split("op=")
+            .nth(1)
+            .or_else(|| case.split("act=").nth(1))
+            .unwrap_or("")
+            .split(|c: char| !(c.is_alphanumeric() || c == '_'))
+            .next()
+            .unwrap_or("")
+            .to_string();
+        if loc.contains("/repo/src/") {
+            let short = loc.rsplit("/repo/").next().unwrap_or(&loc).to_string();
+            for p in ["C11", "C07", "C01"] {
+                self.violation(
+                    p,
+                    format!("crate_panic_outside_operation@{}|near={}", short, opname),
+                    format!("the crate panicked ({} at {}) while the harness was building or observing the state; case={}", msg, loc, case),
+                );
+            }
+            self.count("crate_panics_in_observer", 1);
+        } else {
+            self.violation("HARNESS", format!("oracle_panic@{}", loc), format!("{} at {}; case={}", msg, loc, case));
+            self.count("harness_panics", 1);
+            if self.notes.len() < 6 {
+                self.notes.push(format!("harness panic: {} at {} in case {}", msg, loc, case));
+            }
+        }
     }
 
     pub fn add_trace(&mut self, s: &str) {
